@@ -41,6 +41,10 @@ CHECKS = {
          "Every function and operator application over the pools (every arity admitted, one below and one above) is evaluated by xml_xpath::query and by the reference evaluator; values compare exactly (numbers bitwise, NaN canonical).",
          "Trusts mc/src/model/xpath.rs (number <-> string conversions, substring rounding formula, round tie rule, comparison coercions) as the reading of XPath 1.0 sections 3.4, 3.5 and 4; strings outside the pool are not covered.",
          "DESIGN.md §5 C09"),
+ "C10": ("bounded-exhaustive namespace layouts (20 slots over a 4-element skeleton, at most k non-default, namespace-well-formed only) x prefix renamings and reversed attribute order x 8 caller binding sets; expanded names, in-scope sets and name-test results against scope resolution on the abstract document",
+         "Every element's and attribute's expanded name, every element's in-scope namespace set, and 19-29 name tests / name functions per binding set are compared with the reference on every enumerated layout; consistent prefix renamings of the document and of the caller's bindings must not change results.",
+         "Trusts the scope resolution in mc/src/model/xpath.rs XTree::from_adoc; layouts beyond k deviations and other skeletons are not covered; xq --setns is exercised in C17.",
+         "DESIGN.md §5 C10"),
  "C12": ("explicit-state BFS over DOM call histories on the real xml_dom objects (state = history, re-executed from a fresh parse; canonical-key dedup), tree invariants evaluated after every transition and attributed to the transition that introduces them",
          "Every DOM Level 1 structural mutator, factory, attribute operation and split_text is applied with every receiver/argument choice among all live handles (attached, detached, created, foreign, document, attributes, text) to every reachable state up to the depth bound; in every reached state all navigation views of all live nodes are cross-checked.",
          "Node identity is (kind, XmlNode::id()); states beyond the depth bound and more than one created node per history are not covered.",
